@@ -207,6 +207,13 @@ def apply_step(h, m: Model, step, handles: dict) -> list[Fail]:
             del handles[i]
             m.links = [l for l in m.links if l[0] != i and l[2] != i]
             m.flags.add("delete-node")
+    elif kind == "to_json":
+        from hugr.ops import IncompleteOp
+
+        try:
+            h.to_json()  # serializing changes nothing
+        except IncompleteOp:
+            pass
     elif kind == "insert_hugr":
         _, sub, psel = step
         parent = pick(psel)
@@ -377,7 +384,9 @@ def compare(h, m: Model, handles) -> list[Fail]:
 
 # ------------------------------------------------------------------ strategies
 
-META = st.one_of(st.none(), st.none(), st.dictionaries(st.sampled_from(["k", "name", "ü"]), st.one_of(st.integers(-3, 3), st.text(max_size=3), st.none(), st.lists(st.integers(0, 2), max_size=2), st.booleans(), st.sampled_from([0.0, 1.0, 2.5])), max_size=2))
+FIELD_NAMES = ["runtime_reqs", "extension_reqs", "extension_delta", "input_extensions", "op", "parent", "signature", "t", "v", "typ", "input", "output", "version", "nodes", "edges", "metadata", "encoder"]
+FIELD_DICTS = st.dictionaries(st.sampled_from(FIELD_NAMES), st.one_of(st.integers(0, 2), st.lists(st.sampled_from(["a", "b"]), max_size=2), st.none()), min_size=1, max_size=2)
+META = st.one_of(st.none(), st.none(), st.dictionaries(st.sampled_from(["k", "name"] + FIELD_NAMES[:4]), FIELD_DICTS, min_size=1, max_size=1), st.dictionaries(st.sampled_from(["k", "name", "ü"]), st.one_of(st.integers(-3, 3), st.text(max_size=3), st.none(), st.lists(st.integers(0, 2), max_size=2), st.booleans(), st.sampled_from([0.0, 1.0, 2.5])), max_size=2))
 SEL = st.integers(0, 30)
 OFF = st.integers(0, 5)
 
@@ -390,9 +399,11 @@ def step_strategy(with_insert: bool, max_sub: int = 8):
         (2, st.tuples(st.just("add_link"), SEL, OFF, SEL, OFF).map(list)),
         (2, st.tuples(st.just("add_order_link"), SEL, SEL).map(list)),
         (1, st.tuples(st.just("add_link"), st.integers(0, 4), st.just(-1), st.integers(0, 4), st.just(-1)).map(list)),  # an order link as a plain link: not de-duplicated
+        (1, st.tuples(st.just("add_link"), st.integers(0, 4), st.sampled_from([-1, 0, 2, 3]), st.integers(0, 4), st.sampled_from([-1, 1, 2, 4])).map(list)),  # any mix of order and value ports
         (1, st.tuples(st.just("delete_link"), SEL, st.integers(0, 2), SEL, st.integers(0, 2)).map(list)),
         (3, st.tuples(st.just("delete_existing_link"), SEL).map(list)),
         (2, st.tuples(st.just("delete_node"), SEL).map(list)),
+        (1, st.just(["to_json"])),
     ]
     from vlib.asts import weighted
 
@@ -570,6 +581,15 @@ def apply_valid_mutation(h, step, flags: set):
             flags.add("multi-link")
         h.add_link(OutPort(s, -1), InPort(d, -1))
         flags.add("order-link")
+    elif kind == "to_json":
+        # serialize in the middle of the history (the result is discarded): later documents must not depend on it
+        from hugr.ops import IncompleteOp
+
+        try:
+            h.to_json()
+        except IncompleteOp:
+            pass
+        flags.add("serialized-mid-history")
     elif kind == "insert_default":
         # a small HUGR inserted with insert_hugr's default parent (the root)
         from hugr.hugr import Hugr
@@ -609,6 +629,7 @@ def valid_mutations(max_steps=8):
         (2, st.tuples(st.just("delete_existing_link"), SEL).map(list)),
         (3, st.tuples(st.just("delete_node"), SEL).map(list)),
         (1, st.tuples(st.just("insert_default"), st.sampled_from(["custom", "noop", "dfg", "not"]), st.booleans()).map(list)),
+        (1, st.just(["to_json"])),
     ]
     return st.lists(weighted(*alts), max_size=max_steps)
 
@@ -623,7 +644,8 @@ def order_port_mutations(max_steps=14):
         (4, st.tuples(st.just("add_order_link"), SEL, SEL).map(list)),
         (1, st.tuples(st.just("add_raw_order_link"), st.integers(0, 3), st.integers(0, 3)).map(list)),
         (1, st.tuples(st.just("add_link"), SEL, OFF, SEL, OFF).map(list)),
-        (1, st.tuples(st.just("delete_node"), SEL).map(list)),
+        (2, st.tuples(st.just("delete_node"), SEL).map(list)),
+        (1, st.just(["to_json"])),
     ]
     return st.lists(weighted(*alts), min_size=4, max_size=max_steps)
 
@@ -645,6 +667,18 @@ def desc_mutations():
     return st.tuples(st.lists(add_c, min_size=4, max_size=9), st.lists(dele, min_size=2, max_size=4), st.lists(add_c, min_size=1, max_size=4)).map(lambda t: t[0] + t[1] + t[2])
 
 
+def stale_order_mutations():
+    """Order links on some nodes, a serialization, the nodes replaced by nodes of other arities on the same
+    indices, order links again: what the first serialization computed per node index is out of date."""
+    ops_ = ["sink0", "src0", "custom", "noop", "not", "mktuple", "divmod", "directext"]
+    add0 = st.tuples(st.just("add_node"), st.sampled_from(ops_), st.just(0), st.none(), st.none()).map(list)
+    order = st.tuples(st.just("add_order_link"), SEL, SEL).map(list)
+    dele = st.tuples(st.just("delete_node"), st.sampled_from([-1, -1, -2, 0, 1, 2])).map(list)
+    return st.tuples(st.lists(add0, min_size=3, max_size=5), st.lists(order, min_size=2, max_size=5), st.just([["to_json"]]), st.lists(dele, min_size=1, max_size=3), st.lists(add0, min_size=1, max_size=3), st.lists(order, min_size=2, max_size=5)).map(
+        lambda t: t[0] + t[1] + t[2] + t[3] + t[4] + t[5]
+    )
+
+
 def holes_mutations():
     """Additions and links, then deletions only (several indices free at once, freed in any order, live
     nodes and link ends above and between them), then at most two additions."""
@@ -663,6 +697,7 @@ def reuse_mutations(max_steps=30):
         (5, st.tuples(st.just("add_node"), st.sampled_from(OP_POOL), SEL, st.one_of(st.none(), st.integers(0, 3)), META).map(list)),
         (4, st.tuples(st.just("delete_node"), SEL).map(list)),
         (1, st.tuples(st.just("add_link"), SEL, OFF, SEL, OFF).map(list)),
-        (1, st.tuples(st.just("add_order_link"), SEL, SEL).map(list)),
+        (2, st.tuples(st.just("add_order_link"), SEL, SEL).map(list)),
+        (1, st.just(["to_json"])),
     ]
     return st.lists(weighted(*alts), min_size=6, max_size=max_steps)
